@@ -307,6 +307,14 @@ def ext(s, ctx, func, g, tc, A, caller, ln, last):
         return ok(unit())
     if tc and tc[0] == 'String' and tc[1] == 'Add' and tc[2] == 'add':
         return Str(('concat', [deref_all(A[0]), deref_all(A[1])]))
+    # ------------------------------------------------------------ Deref through an unresolved type parameter: dispatch on the value
+    if tc and tc[1] in ('Deref', 'DerefMut') and tc[2] in ('deref', 'deref_mut') and re.match(r'^[A-Z][A-Za-z]?\d?$', tc[3].strip()):
+        v = deref_all(A[0])
+        if isinstance(v, Agg) and v.ty in ('Box', 'Rc', 'Arc') and v.fields: return v.fields[0] if isinstance(v.fields[0], Ref) else Ref(SlotCell(v.fields, 0))
+        if isinstance(v, (SeqM, Str)): return A[0]
+        from .engine import GuardM, BorrowM
+        if isinstance(v, GuardM): return Ref(v.lock.inner)
+        if isinstance(v, BorrowM): return Ref(v.rc.inner)
     # ------------------------------------------------------------ calls through `dyn Trait` of a trait defined in the analysed crates
     if tc and tc[3].strip().startswith('dyn ') and A:
         recv = deref_all(A[0])
@@ -389,6 +397,18 @@ def ext(s, ctx, func, g, tc, A, caller, ln, last):
     if E('Result::copied') or E('Result::cloned'):
         o = A[0]; return ok(clone_val(deref(o.fields[0]))) if o.variant == 0 else o
     # ------------------------------------------------------------ ranges
+    if tc and tc[1] in ('IntoIterator', 'Iterator') and isinstance(deref_all(A[0]), Agg) and deref_all(A[0]).ty == 'RangeFrom' and tc[2] in ('zip', 'take'):
+        st_ = simp(deref_all(A[0]).fields[0]); st_ = st_.as_long() if is_z3(st_) and z3.is_int_value(st_) else st_
+        if not is_conc(st_): raise Unsupported('open range that starts at a symbolic value')
+        if tc[2] == 'take':
+            n_ = simp(A[1])
+            if not is_conc(n_): raise Unsupported('take with a symbolic count')
+            return IterM(list(range(st_, st_ + n_)))
+        ov = deref_all(A[1])
+        if isinstance(ov, IterM): other = yield from B._iter_items(s, ctx, ov)
+        else:
+            oi = yield from s.call(ctx, '<X as std::iter::IntoIterator>::into_iter', [A[1]], caller, ln); other = yield from B._iter_items(s, ctx, oi)
+        return IterM([tup(st_ + i, x) for i, x in enumerate(other)])
     if tc and tc[1] in ('IntoIterator', 'Iterator', 'DoubleEndedIterator', 'ExactSizeIterator') and isinstance(deref_all(A[0]), Agg) and deref_all(A[0]).ty in ('Range', 'RangeInclusive'):
         items = _range_items(deref_all(A[0]))
         it = IterM(items)
@@ -440,7 +460,11 @@ def ext(s, ctx, func, g, tc, A, caller, ln, last):
             if m == 'rev': return IterM(list(reversed(base)))
             if m in ('zip', 'chain'):
                 o = A[1]
-                if isinstance(deref_all(o), IterM): other = yield from B._iter_items(s, ctx, deref_all(o))
+                if m == 'zip' and isinstance(deref_all(o), Agg) and deref_all(o).ty == 'RangeFrom':
+                    st_ = simp(deref_all(o).fields[0]); st_ = st_.as_long() if is_z3(st_) and z3.is_int_value(st_) else st_
+                    if not is_conc(st_): raise Unsupported('zip with an open range that starts at a symbolic value')
+                    other = list(range(st_, st_ + len(base)))
+                elif isinstance(deref_all(o), IterM): other = yield from B._iter_items(s, ctx, deref_all(o))
                 else:
                     oi = yield from s.call(ctx, '<X as std::iter::IntoIterator>::into_iter', [o], caller, ln)
                     other = yield from B._iter_items(s, ctx, oi)
